@@ -201,3 +201,37 @@ def kwarg_deep(fn: FunctionInfo, call: ast.Call, name: str) -> tuple[ast.expr | 
             v = v2 or v
             unresolved = unresolved or u2
     return v, unresolved and v is None
+
+
+_canon_cache: dict[int, tuple[ast.AST, dict[str, str]]] = {}
+
+
+def canon_names(fn: FunctionInfo) -> dict[str, str]:
+    """Names of a function in canonical form: parameters p0, p1, ... (self/cls kept), other bound names v0, v1, ... in order of their first binding.
+
+    Obligation keys and tabled exceptions written with these survive a consistent renaming of variables."""
+    hit = _canon_cache.get(id(fn.node))
+    if hit is not None and hit[0] is fn.node:
+        return hit[1]
+    mapping: dict[str, str] = {}
+    a = fn.node.args
+    for i, arg in enumerate([*a.posonlyargs, *a.args, *([a.vararg] if a.vararg else []), *a.kwonlyargs, *([a.kwarg] if a.kwarg else [])]):
+        mapping[arg.arg] = arg.arg if arg.arg in ("self", "cls") else f"p{i}"
+    stores = sorted((n for n in ast.walk(fn.node) if isinstance(n, ast.Name) and isinstance(n.ctx, ast.Store)), key=lambda n: (n.lineno, n.col_offset))
+    for n in stores:
+        if n.id not in mapping:
+            mapping[n.id] = f"v{sum(1 for v in mapping.values() if v.startswith('v'))}"
+    _canon_cache[id(fn.node)] = (fn.node, mapping)
+    return mapping
+
+
+def canon_text(fn: FunctionInfo, node: ast.AST) -> str:
+    """`node` unparsed with the function's names replaced by their canonical ones."""
+    import copy
+
+    mapping = canon_names(fn)
+    clone = copy.deepcopy(node)
+    for n in ast.walk(clone):
+        if isinstance(n, ast.Name) and n.id in mapping:
+            n.id = mapping[n.id]
+    return unparse(clone)
